@@ -126,19 +126,22 @@ View  == IF LookupOK(Obs(S))
 (***************************************************************************)
 (* Every transition out of the current state, as a property record         *)
 (***************************************************************************)
-pfS == PF(Obs(S))
-X(c, r) ==
+\* o = Obs(S) and pf = PF(o) are computed ONCE per state by the invariants below (LET values are cached)
+X(c, r, o, pf) ==
     LET acc == r.ok /\ IsEdit(c)
         u   == IF acc THEN Undo(r.s) ELSE [s |-> r.s, ret |-> FALSE]
         rr  == IF acc THEN Redo(u.s) ELSE [s |-> r.s, ret |-> FALSE]
-    IN [pre |-> Obs(S), pf |-> pfS, c |-> c, ok |-> r.ok, err |-> r.err, emit |-> r.emit, ret |-> r.ret,
+    IN [pre |-> o, pf |-> pf, c |-> c, ok |-> r.ok, err |-> r.err, emit |-> r.emit, ret |-> r.ret,
         post |-> Obs(r.s), u_ret |-> u.ret, u_post |-> Obs(u.s), r_ret |-> rr.ret, r_post |-> Obs(rr.s)]
-AllX == UNION {{X(c, r) : r \in StepSet(S, c)} : c \in {d \in Calls(S) : InDomain(S, d)}}
+AllXof(o, pf) == UNION {{X(c, r, o, pf) : r \in StepSet(S, c)} : c \in {d \in Calls(S) : InDomain(S, d)}}
+AllX == LET o == Obs(S) IN AllXof(o, PF(o))
 
 \* one pass over all transitions; a failing property prints its name and the call
 Chk(name, b, x) == b \/ ~PrintT(<<"FAIL", name, x.c, path>>)
 Inv_Valid == Valid(Obs(S))
-Inv_All == \A x \in AllX :
+Inv_All == LET o == Obs(S)
+               pf == PF(o)
+           IN \A x \in AllXof(o, pf) :
     /\ Chk("C01", P_C01(x), x) /\ Chk("C03", P_C03(x), x) /\ Chk("C04", P_C04(x), x)
     /\ Chk("C05", P_C05(x), x) /\ Chk("C06", P_C06(x), x) /\ Chk("C07", P_C07(x), x)
     /\ Chk("C08", P_C08(x), x) /\ Chk("C09", P_C09(x), x) /\ Chk("C11", P_C11(x), x)
